@@ -43,9 +43,12 @@ def dict_plan(kinds, small, large):
     return plan
 
 
-def dict_stages(kinds, quick_small, quick_large, binary="dict_rc", floors=None, nontrivial_floor=20, thorough_mult=12):
+def dict_stages(kinds, quick_small, quick_large, binary="dict_rc", floors=None, nontrivial_floor=20, thorough_mult=4):
     def f(tier):
-        mult = thorough_mult if tier == "thorough" else 1
+        import os
+        # thorough: 4x the cases, size class 6 and the 1500-member sweep cap (about 15-20x the quick wall time);
+        # VERIF_THOROUGH_MULT=12 is the overnight setting (C01 took 57 min with it)
+        mult = int(os.environ.get("VERIF_THOROUGH_MULT", thorough_mult)) if tier == "thorough" else 1
         st = [{"name": "dict", "binary": binary, "plan": dict_plan(kinds, quick_small * mult, quick_large * mult),
                "label_floors": floors or {}, "nontrivial_floor": nontrivial_floor}]
         if tier == "thorough":
